@@ -729,15 +729,20 @@ def taint(events, writes):
             if a <= step and (b is None or step <= b):
                 return kind
         return None
-    hooks = [(s, t, d[1]) for s, t, k, d in events if k == "hook"]
+    hooks = [(s, t, d[1], d[0]) for s, t, k, d in events if k == "hook"]
     renders = [(s, t) for s, t, k, d in events if k == "frame_render"]
-    for hs, ht, hop in hooks:
+    for hs, ht, hop, holds_lock in hooks:
         # the write of that thread that follows the hook
         ws = [w[0] for w in writes if w[1] == ht and w[0] >= hs]
         if not ws:
             continue
         we = min(ws)
-        mine_unlocked = hop in unlocked
+        mine_unlocked = hop in unlocked and holds_lock is False
+        # (b) only excuses a window whose owner really HOLDS the display lock, as refresh / update / add_task are meant
+        # to: a refresh that has lost its lock is not the known mechanism, whoever disturbs it
+        mine_locked = hop not in unlocked and holds_lock is True
+        if not (mine_unlocked or mine_locked):
+            continue
         for rs, rt in renders:
             if rt != ht and hs < rs <= we and (mine_unlocked or op_at(rt, rs) in unlocked):
                 return True
